@@ -1,15 +1,15 @@
 SPECIFICATION ASpec
 CONSTANTS
-  NH = 2
+  NH = 3
   MaxBlocks = 1
-  MaxSteps = 4
+  MaxSteps = 6
   Bases <- Base1
-  Layouts <- LaySmall
-  Counts <- HostCounts
-  Lens <- HostLens
-  NilMiner = TRUE
-  Kinds <- AllKinds
-  InitPools = "empty"
+  Layouts <- LayMid
+  Counts <- NoCounts
+  Lens <- NoCounts
+  NilMiner = FALSE
+  Kinds <- NoCounts
+  InitPools = "truth"
   MalClasses <- MalNone
   GuardFit = TRUE
   Huge = 99
